@@ -79,7 +79,7 @@ extern const long tu_trees;
 
 int main(int argc, char **argv) {
   Harness H("C05", argc, argv);
-  Ctx C(H, 5, "nonuni");
+  Ctx C(H, 5, "sym");  // non-uniform, both signs, one interval centred exactly at the origin
   run_all(C);
   H.count("trees", H.shard == 0 || H.only >= 0 ? C.trees : 0);
   return H.finish();
